@@ -96,6 +96,16 @@ CHECKS: dict[str, dict[str, str]] = {
         "technique": "TLA+ transcription of the legacy/BIP143/BIP341 preimages; TLC model-checks the commitment matrix and validates recorded digests",
         "design_ref": "DESIGN.md section 4 C09",
     },
+    "C11": {
+        "text": ("The Combiner is specified on the wire: a PSBT is its key-value maps and the result of a combine is, map by map, the union of the operands' pairs "
+                 "(tx_modifiable: modifiable bits AND, the others OR); TLC model-checks the coordinator/signers machine (lossless, nothing invented, idempotent, only "
+                 "signature pairs accepted). Recorded and validated by TLC: combines of every order and bracketing over PSBTs whose non-structural pairs were dealt to "
+                 "2-3 copies (built and signed by the library over several script types, v0 and v2 with sequence 0 / required lock times / explicit SIGHASH_DEFAULT, "
+                 "the BIP vectors, enriched copies); assert_signatures_only on honest answers and on every single-pair tampering; sign, request_signatures, finalize, "
+                 "to_v0/to_v2 checked for the unsigned transaction (re-derived from the maps per BIP370), for their arguments being left unchanged and for shared objects."),
+        "technique": "TLA+ specification of the PSBT roles over key-value maps model-checked with TLC; recorded combines, signer answers and role calls validated as traces",
+        "design_ref": "DESIGN.md section 4 C11",
+    },
     "C12": {
         "text": ("TLC checks on the BIP341 specification itself that, for every tree shape up to three leaves and the balanced four-leaf shape over "
                  "two scripts and two keys, every leaf's control block verifies, no leaf verifies with another leaf's path, and the tweaked "
